@@ -54,6 +54,10 @@ def schedOne (sliceLen : Nat) (c : Ctx) (m : M) : M × StepRes :=
 /-- has `terminate` been called on this context? -/
 def isTerminated (c : Ctx) (m : M) : Bool := c.terminate || m.termReq.contains c.id
 
+/-- a context that ends with a value left on its stack reports it (`print_context_work_to_log_on_exit`) -/
+def reportValue (c : Ctx) (m : M) : M :=
+  if c.vals.isEmpty then m else m.log Diag.runtime_ContextValuePrint
+
 /-- remove context number `i` from the scheduling list and from the set of live script handles -/
 def dropCtx (ctxs : List Ctx) (i : Nat) (c : Ctx) (m : M) : List Ctx × M :=
   (ctxs.eraseIdx i, { m with alive := m.alive.filter (· != c.id) })
@@ -80,7 +84,7 @@ def sched (sliceLen : Nat) : Nat → List Ctx → Nat → M → StepRes → Star
         else
           match o.2 with
           | .empty =>
-            let d := dropCtx ctxs1 i c m2
+            let d := dropCtx ctxs1 i c (reportValue o.1.ctx m2)
             if d.1.isEmpty then finishStart d.1 d.2 .empty
             else sched sliceLen fuel d.1 i d.2 .empty
           | .ok => sched sliceLen fuel ctxs1 (i + 1) m2 .ok
